@@ -1,12 +1,23 @@
 """C14 — the tracked world stays self-consistent (SceneGraph.tla / _MC / _MBT / _Trace).
 
-Spec layer (SceneGraph.tla): ONE object map, every index / link is a derived view.
-Algo layer (SceneGraph_MC.tla): transcription of the code's bookkeeping, checked by TLC against the views.
-B1: every edge of the exhaustively enumerated bounded Spec model is replayed into a fresh real
-    session (real messages through the real (de)serializer) and the complete observation is compared.
-B2: long random histories over a larger universe are executed against the real code by a driver that
-    plays the simulator; TLC re-computes the expected world from the logged arguments and judges the
-    logged observations (SceneGraph_Trace.tla).
+Spec layer (SceneGraph.tla): ONE object map obj : FullID -> [local, parent, region]; the index by full ID, the
+    per-region index by local ID, children, parent links and orphans are views DERIVED from it; requests are a
+    set of pending keys.  Environment assumptions of the property are guards.
+Algo layer (SceneGraph_MC.tla): transcription of the code's bookkeeping (both indices, ChildIDs, Parent,
+    orphanage, futures, assertions), run in lock step; TLC checks it against the derived views exhaustively.
+B1: every edge of exhaustively enumerated closed Spec models (all reachable abstract states x all actions) is
+    replayed into real proxy sessions (real messages through the real (de)serializer) along planned tours; the
+    complete observation is compared with what TLC printed after EVERY step.
+B2: long random histories over a larger universe, with multi-block messages, are executed against the real
+    code by a driver that plays the simulator; TLC re-computes the expected world from the logged arguments and
+    judges the logged observations clause by clause (SceneGraph_Trace.tla).
+
+Features of a violation (for known_findings.json): kind b1|b2, clause (first failed clause, in the order of
+CLAUSES), act, msg (message kind), exc (exception type for clause "raised"), tags (triage labels TLC attached to
+the failing step: target-regionless, cachedHit-known-fullid, kill-untracked-parent-of-avatar, cancels-requests),
+after (labels of the steps before it in the same history), blocks (B2: blocks in the failing message).
+
+Development aid: C14_ONLY=mc|b1|b2|<label>[,..] runs only those parts.
 """
 from __future__ import annotations
 
@@ -342,6 +353,8 @@ class World:
                 if o is not None:
                     byl[l] = o
                     regl.append([rn, l, self.fname(o.FullID)])
+                    if so.lookup_fullid(o.FullID) is not o:
+                        regl.append([rn, l, "!not-the-instance-indexed-by-full-id"])
             if len(vals) != len(byl) or any(v is not byl.get(v.LocalID) for v in vals):
                 regl.append([rn, -1, "!all_objects"])
             for fn in self.U["full"]:
@@ -754,10 +767,54 @@ def _b1(chk: Check, U, akinds, tkinds, reqlocals, label, depth=99, maxlen=60):
 # Model check of the Algo layer against the Spec layer
 # ------------------------------------------------------------------------------------------
 
-def _mc(chk: Check, U, depth, label, bugs=()):
-    cfg = ("SPECIFICATION MSpec\nCONSTANTS %s\nVIEW MView\nCONSTRAINT Bound\n" % _consts(U, Depth=depth, Bugs=_tla_set(bugs))
-           + "".join("INVARIANT %s\n" % i for i in INVS) + "PROPERTY KillCascades\n")
-    return common.model_check(chk, "SceneGraph_MC", cfg, "SceneGraph_MC " + label)
+class _McRun:
+    """SceneGraph_MC under TLC as a child process that runs beside the replays (no Python involved)."""
+
+    def __init__(self, chk: Check, U, depth, label, bugs=()):
+        import subprocess
+        import tempfile
+        import time
+        self.label = "SceneGraph_MC " + label
+        cfg_text = ("SPECIFICATION MSpec\nCONSTANTS %s\nVIEW MView\nCONSTRAINT Bound\n"
+                    % _consts(U, Depth=depth, Bugs=_tla_set(bugs))
+                    + "".join("INVARIANT %s\n" % i for i in INVS) + "PROPERTY KillCascades\n")
+        self.dir = tempfile.mkdtemp(prefix="mc-", dir=chk.scratch)
+        cfg = os.path.join(self.dir, "SceneGraph_MC.cfg")
+        with open(cfg, "w") as f:
+            f.write(cfg_text)
+        self.cmd = ["java", "-XX:+UseParallelGC", "-Xmx6g", "-Xss512m", "-DTLA-Library=" + common.SPECS,
+                    "-cp", common.TLA_JAR + ":" + common.TLA_DEPS, "tlc2.TLC", "-workers", "auto",
+                    "-metadir", os.path.join(self.dir, "meta"), "-noGenerateSpecTE", "-config", cfg, "-deadlock",
+                    os.path.join(common.SPECS, "SceneGraph_MC.tla")]
+        env = dict(os.environ)
+        env.pop("JAVA_TOOL_OPTIONS", None)
+        self.t0 = time.time()
+        self.outf = open(os.path.join(self.dir, "out.txt"), "w+")
+        self.p = subprocess.Popen(self.cmd, cwd=common.SPECS, env=env, stdout=self.outf, stderr=subprocess.STDOUT)
+
+    def finish(self, chk: Check):
+        import time
+        try:
+            rc = self.p.wait(timeout=3600)
+        except Exception:
+            self.p.kill()
+            raise common.MachineryError("TLC timed out: " + self.label)
+        self.outf.seek(0)
+        out = self.outf.read()
+        self.outf.close()
+        import re
+        m = re.search(r"Finished in (?:(\d+)min )?(\d+)s", out)
+        wall = (int(m.group(1) or 0) * 60 + int(m.group(2))) if m else time.time() - self.t0
+        res = common.TlcResult(" ".join(self.cmd), out, rc, wall)
+        if "Parsing or semantic analysis failed" in out or "***Parse Error***" in out or "java.lang." in out \
+                or "Error reading configuration" in out:
+            raise common.MachineryError("TLC failed (%s):\n%s" % (self.label, out[-3000:]))
+        chk.require_model_ok(res, self.label)
+        return res
+
+    def kill(self):
+        if self.p.poll() is None:
+            self.p.kill()
 
 
 # ------------------------------------------------------------------------------------------
@@ -962,7 +1019,8 @@ def _trace_cfg(U):
     return ("SPECIFICATION TraceSpec\nCONSTANTS %s\nPOSTCONDITION TraceAccepted\nCHECK_DEADLOCK FALSE\n" % _consts(U))
 
 
-def _b2(chk: Check, U, n_walks, length, label, shards=common.NCPU):
+def _b2(chk: Check, U, n_walks, length, label, shards=0):
+    shards = shards or max(1, min(common.NCPU, n_walks // 18))
     jobs = [(U, chk.rng.getrandbits(48), length) for _ in range(n_walks)]
     parts = common.parallel_map(_walks_chunk, common.chunked(jobs, common.NCPU))
     traces = [t for p in parts for t in p]
@@ -1073,6 +1131,7 @@ U2P = dict(U2, maxpending=1)
 U2S = {"full": ["a", "b"], "avatars": ["b"], "locals": [1, 2], "init": ["R1"], "maxpending": 2,
        "trackable": ["R1"], "unknown": ["R3"]}
 U3 = {"full": ["a", "b", "c"], "avatars": ["b"], "locals": [1, 2, 3], "init": ["R1"], "maxpending": 0}
+U3D = {"full": ["a", "b", "c"], "avatars": ["b"], "locals": [1, 2, 3], "init": ["R1"], "maxpending": 3}
 U5 = {"full": ["a", "b", "c", "d", "e"], "avatars": ["b", "e"], "locals": [1, 2, 3, 4], "init": ["R1"], "maxpending": 4}
 AK = ["full", "compressed", "cachedHit"]
 TK = ["terse", "cachedSame", "cachedMiss"]
@@ -1092,7 +1151,8 @@ def run(chk: Check):
         "between its teardown and its next handshake",
         "every update message changes at least one property value (the code runs its hooks, which resolve requests, "
         "only then)",
-        "one ObjectData block per message; the event loop runs between two messages",
+        "the event loop runs between two messages (B1: one block per message; B2: also multi-block messages, whose "
+        "blocks are handled back to back and observed after the last block)",
         "cascading kills spare avatars (the code's documented indra behaviour)",
         "an object announced for an untracked handle stays in the session-wide index only (pinned by "
         "tests/proxy/test_object_manager.py::test_object_moved_to_bad_region)",
@@ -1100,24 +1160,36 @@ def run(chk: Check):
     U2L = dict(U2, locals=[1, 2])
     U3R = dict(U3, trackable=["R1"], unknown=[])
     if chk.tier == "quick":
-        plan = [("mc", _mc, (U2, 99, "2obj")),
-                ("mc", _mc, (U2S, 99, "2obj-2loc-requests")),
+        plan = [("mc", None, (U2, 99, "2obj")),
+                ("mc", None, (U2S, 99, "2obj-2loc-requests")),
                 ("b1", _b1, (U2, ["full"], TK, [], "2obj-full")),
                 ("b1", _b1, (U2L, ["compressed", "cachedHit"], ["cachedSame"], [], "2obj-2loc-compressed-cached")),
                 ("b1", _b1, (U2S, AK, TK, [1, 2], "2obj-2loc-requests")),
                 ("b1", _b1, (U3R, AK, TK, [], "3obj-1region")),
-                ("b2", _b2, (U5, 160, 60, "5obj"))]
+                ("b2", _b2, (U3D, 36, 60, "3obj-dense")),
+                ("b2", _b2, (U5, 108, 60, "5obj"))]
     else:
-        plan = [("mc", _mc, (U2P, 99, "2obj-requests")),
-                ("mc", _mc, (U3, 5, "3obj d5")),
-                ("b1", _b1, (U2P, AK, TK, [1, 2, 3], "2obj-all")),
+        U2R = dict(U2, trackable=["R1"], maxpending=2)
+        plan = [("mc", None, (U2P, 99, "2obj-requests")),
+                ("mc", None, (U3, 99, "3obj")),
+                ("b1", _b1, (U2, AK, TK, [], "2obj-all")),
+                ("b1", _b1, (U2R, AK, TK, [1, 2], "2obj-R1-R3-requests")),
                 ("b1", _b1, (dict(U3, trackable=["R1"]), AK, TK, [], "3obj-R1-R3")),
-                ("b2", _b2, (U5, 1500, 80, "5obj"))]
+                ("b1", _b1, (dict(U3, unknown=[]), ["full"], ["terse"], [], "3obj-R1-R2-full")),
+                ("b2", _b2, (U3D, 400, 60, "3obj-dense")),
+                ("b2", _b2, (U5, 1000, 80, "5obj"))]
     only = [x for x in os.environ.get("C14_ONLY", "").split(",") if x]      # development aid: mc,b1,b2 or a label
-    for kind, fn, args in plan:
-        if only and kind not in only and args[-1] not in only:
-            continue
-        fn(chk, *args)
+    plan = [st for st in plan if not only or st[0] in only or st[2][-1] in only]
+    mcs = [_McRun(chk, *args) for kind, fn, args in plan if kind == "mc"]
+    try:
+        for kind, fn, args in plan:
+            if kind != "mc":
+                fn(chk, *args)
+        for m in mcs:
+            m.finish(chk)
+    finally:
+        for m in mcs:
+            m.kill()
     if not only:
         missing = [k for k in REQUIRED_SITUATIONS if not chk.cov.get("b1_situations", {}).get(k)]
         if missing:
